@@ -4,28 +4,29 @@
      {"e":"reset","case":id,"ty":T,"sem":"set"|"bag","width":w,"keys":k,"fam":"ght"|"coll"}
      {"e":"op","op":O,"s":1|2,"row":[..],"rows":[[..]..],"head":h,"prefix":[..],"ret":R,"panic":b}
      {"e":"eof"}
-   Broken rules are collected per case in `viol`, implementation-level oddities in `drift`;
+   Broken rules are collected in `viol` as <<case, rule, index of the first offending op>>,
+   implementation-level oddities per case in `drift`;
    both are printed at eof. *)
 EXTENDS TupleStore, TLC, Json, IOUtils
 
 Rec == ndJsonDeserialize(IOEnv.TRACE)
 
-VARIABLES l, case, viol, drift
-tvars == <<mvars, l, case, viol, drift>>
+VARIABLES l, case, k, viol, drift     \* k: index of the current op within its case
+tvars == <<mvars, l, case, k, viol, drift>>
 Ev == Rec[l]
 
-TInit == l = 1 /\ case = 0 /\ viol = {} /\ drift = {} /\ MInit
+TInit == l = 1 /\ case = 0 /\ k = 0 /\ viol = {} /\ drift = {} /\ MInit
 
-TReset == Ev.e = "reset" /\ MReset(Ev.sem, Ev.width, Ev.keys, Ev.fam) /\ case' = Ev.case
+TReset == Ev.e = "reset" /\ MReset(Ev.sem, Ev.width, Ev.keys, Ev.fam) /\ case' = Ev.case /\ k' = 0
 TOp == Ev.e = "op" /\ MOp(Ev.op, Ev.s, Ev.row, Ev.rows, Ev.head, Ev.prefix, Ev.ret, Ev.panic)
-       /\ UNCHANGED case
-TEof == Ev.e = "eof" /\ UNCHANGED <<mvars, case>>
+       /\ UNCHANGED case /\ k' = k + 1
+TEof == Ev.e = "eof" /\ UNCHANGED <<mvars, case, k>>
         /\ PrintT(<<"VIOL", ToJson(viol)>>) /\ PrintT(<<"DRIFT", ToJson(drift)>>)
 
 TNext ==
     /\ l <= Len(Rec) /\ l' = l + 1
     /\ (TReset \/ TOp \/ TEof)
-    /\ viol' = viol \cup {<<case', b>> : b \in bad'}
+    /\ viol' = viol \cup {<<case', b, k'>> : b \in bad' \ (IF Ev.e = "reset" THEN {} ELSE bad)}
     /\ drift' = drift \cup {<<case', b>> : b \in odd'}
 
 TSpec == TInit /\ [][TNext]_tvars
